@@ -261,3 +261,7 @@ def run(res, ctx):
         "traces_validated_against_impl": st["evaluations"],
     })
     res.assumptions += ["string formatting of a figure (rust_decimal Display, tabled) is compared, not modelled; text and CSV-directory writers print the render model's cells verbatim (observed in C04's mode runs)"]
+
+
+def replay(res, ctx, path):
+    return corecheck.replay(res, ctx, path)
